@@ -285,7 +285,8 @@ def hist_line(hist):
     return "engine\thistory\t" + pj(evs)
 
 
-def run_property(chk, prop, laws, quick_gen=120, thorough_gen=3000):
+def run_property(chk, prop, laws, quick_gen=120, thorough_gen=3000, scns=None, n_rand=None, expect=None, rule=None,
+                 skip_multi=True):
     """run the scenario corpus x schedules with the monitor; report only the laws of `prop`"""
     quick = chk.tier == "quick"
     chk.lean_stage()
@@ -294,8 +295,10 @@ def run_property(chk, prop, laws, quick_gen=120, thorough_gen=3000):
         def quiescent_or_idle(self):
             return not self.broker.pending and not self.broker.ready()
         simmod.Sim.quiescent_or_idle = quiescent_or_idle
-    scns = corpus(chk.rng, quick) + generated(chk.rng, quick_gen if quick else thorough_gen, 2)
-    n_rand = 4 if quick else 40
+    if scns is None:
+        scns = corpus(chk.rng, quick) + generated(chk.rng, quick_gen if quick else thorough_gen, 2)
+    if n_rand is None:
+        n_rand = 4 if quick else 40
     lines, line_meta = [], []
     for scn in scns:
         hand = not scn.name.startswith("gen")
@@ -346,8 +349,10 @@ def run_property(chk, prop, laws, quick_gen=120, thorough_gen=3000):
             # executions that never become terminal (hand scenarios are all terminating)
             if fv.get("status") not in ("SUCCEEDED", "FAILED") and s.steps < 2500:
                 probs.append(("C02.terminal_reached", {"final": fv, "volatile": s.snapshot_volatile()}))
+            if expect is not None:
+                probs += expect(scn, s, ea, pl, fv)
             multi = False
-            if not hand and pl is not None:
+            if skip_multi and not hand and pl is not None:
                 # several branches of one fan-out failing at once is C06's family, not this property's
                 from props import c01
                 a = common.driver([c01.model_line(scn.machine, scn.data, ea, pl.oracle())])[0].split("\t")
@@ -409,7 +414,7 @@ def run_property(chk, prop, laws, quick_gen=120, thorough_gen=3000):
             chk.report("impl-violates-law", case, impl={"notifications": extra}, model={"notesOK": False},
                        law="C02.notifications are a prefix of [RUNNING, T] (Lean lifecycle automaton)")
     chk.cov["streams"]["scenarios"] = len(scns)
-    chk.cov["rule"] = ("hand-written scenarios (sequential machines of every state type incl. retry/catch/path errors and an EXPRESS "
+    chk.cov["rule"] = rule or ("hand-written scenarios (sequential machines of every state type incl. retry/catch/path errors and an EXPRESS "
                        "machine; Parallel 2-3 and Map with MaxConcurrency 0-2, all succeeding or with exactly one unhandled failing "
                        "branch / item; Fail-vs-Wait-vs-Task siblings; nesting) under the canonical and %d seeded random schedules, "
                        "plus generated machines (canonical + 1 random schedule); the laws are evaluated after every step; "
